@@ -87,13 +87,13 @@ def run_models(c):
         ("Allowlist", "Allowlist_sanity_pers.cfg", "PersistentKept", "sanity: a refresh replaces the configured entries as well"),
     ]
     if th:
-        jobs += [("BindToDevice", "BindToDevice_mc_big.cfg", None, "tcp: paths <= 2 bits (7 prefixes), 4 registrations, 2 connections"),
+        jobs += [("BindToDevice", "BindToDevice_mc_big.cfg", None, "tcp: paths <= 2 bits (7 prefixes), 3 registrations, 3 connections"),
                  ("Allowlist", "Allowlist_mc_big.cfg", None, "2 readers, all 10 modes")]
 
     def one(j):
         mod, cfg, exp, name = j
-        return c.tlc_mc(mod, cfg, workers=w if exp is None else 1, expect_violation=exp, count=False, name=name,
-                        timeout=1500)
+        nw = 1 if exp is not None else (max(w, min(8, NCPU // 2)) if "_big" in cfg else w)
+        return c.tlc_mc(mod, cfg, workers=nw, expect_violation=exp, count=False, name=name, timeout=1500)
 
     with ThreadPoolExecutor(max_workers=4) as ex:
         res = list(ex.map(one, jobs))
